@@ -18,7 +18,7 @@ RULE = ("cases = {2D vorticity, 3D velocity, general vorticity} x L in {2pi,1,3,
 REQUIRED = {"laminar": {"quick": 200, "thorough": 1500}, "zero_injection": {"quick": 10, "thorough": 40}, "general_equals_kolmogorov": {"quick": 10, "thorough": 30},
             "forced_stepper": {"quick": 40, "thorough": 200}}
 ASSUMPTIONS = ["injection wavenumber strictly below Nyquist", "float64"]
-TIMEOUT = {"quick": 900, "thorough": 3000}
+TIMEOUT = {"quick": 2400, "thorough": 7200}
 EPS = np.finfo(float).eps
 LS = [2 * np.pi, 1.0, 3.0, 0.37, 11.0]
 
